@@ -401,6 +401,9 @@ ROUNDS = dict(
     gen={"quick": [dict(module="MPTTxn_MC", cfg="MPTTxn_gen_ex.cfg", workers=8),
                    dict(module="MPTTxn_MC", cfg="MPTTxn_gen_sim.cfg", workers=1,
                         extra=["-simulate", "num=1500", "-depth", "12", "-seed", "{seed}"]),
+                   # behaviours of the persistence/crash/prune design model (multi-round, crash at every storage operation)
+                   dict(module="MPTPersist", cfg="MPTPersist_gen.cfg", workers=1,
+                        extra=["-simulate", "num=800", "-depth", "30", "-seed", "{seed}"]),
                    # structured exhaustive family: 2 direct inserts, one child, every 3..4 child operations, merge
                    dict(module="MPTTxn_MC", cfg="MPTTxn_gen_struct.cfg", workers=8),
                    # deep behaviours over two paths / two values / two children: overwrite-and-restore, split-and-collapse
@@ -410,6 +413,8 @@ ROUNDS = dict(
                       dict(module="MPTTxn_MC", cfg="MPTTxn_gen_sim.cfg", workers=1, timeout=3000,
                            extra=["-simulate", "num=40000", "-depth", "12", "-seed", "{seed}"]),
                       dict(module="MPTTxn_MC", cfg="MPTTxn_gen_struct.cfg", workers=8),
+                      dict(module="MPTPersist", cfg="MPTPersist_gen.cfg", workers=1, timeout=3000,
+                           extra=["-simulate", "num=20000", "-depth", "30", "-seed", "{seed}"]),
                       dict(module="MPTTxn_MC", cfg="MPTTxn_gen_deep.cfg", workers=1, timeout=3000,
                            extra=["-simulate", "num=40000", "-depth", "13", "-seed", "{seed}"])]},
     exec_args=lambda tier, seed: (["-n", 300, "-nblock", 300] if tier == "quick" else ["-n", 8000, "-nblock", 8000]),
@@ -725,10 +730,39 @@ def run_property(prop, tier, seed):
     return rc
 
 
+def _replay_c08(payload, path):
+    ev = payload.get("flagged_event") or {}
+    if ev.get("op") != "sched":
+        log("stress runs are not replayable (free-running goroutines); re-run ./bin/check C08")
+        return 2
+    d = vlib.scratch("replay_C08")
+    binary = vlib.build_vexec()
+    hist = os.path.join(d, "sched.ndjson")
+    with open(hist, "w") as f:
+        f.write(json.dumps(dict(blocks=ev["blocks"], writes=ev["writes"], pre=ev["pre"], committers=ev["committers"],
+                                readers=ev["readers"], sched=ev["sched"])) + "\n")
+    prefix = os.path.join(d, "trace")
+    vlib.vexec(binary, ["sched", "-hist", hist, "-out", prefix, "-shards", 1])
+    vr = vlib.validate_traces(d, "StateCacheSchedTrace", "StateCacheSchedTrace.cfg", sorted(glob.glob(prefix + ".*.ndjson")))
+    bad = [b for r in vr for b in r["bad"]]
+    for b in bad[:3]:
+        log("replay deviation:", json.dumps(b))
+    if bad:
+        log("VIOLATION property=C08 replay=%s" % path)
+        return 1
+    log("replay passes on the current tree")
+    return 0
+
+
 def replay(path):
     payload = json.load(open(path))
     prop = payload["property"]
     fam = FAMILIES[prop]
+    if prop == "C08":
+        return _replay_c08(payload, path)
+    if "custom" in fam or fam["name"] in ("proof", "codec", "merkle", "currency"):
+        log("single-case replay is not implemented for %s; the replay file holds the failing event; re-run ./bin/check %s" % (prop, prop))
+        return 2
     t0 = time.time()
     if "ops" not in payload:
         log("replay file carries no operation sequence (race report?)")
